@@ -148,7 +148,8 @@ CLAIMED = {
        + " xz compares the usage with the limit of the current operation mode."
        + " (NEEDED) the amount compared with the hard limit before LZMA_MEMLIMIT_ERROR is what memconfig reports; (CLAMP) an order between limit members established by a clamp is re-established at every later store; (STALENEXT) memconfig uses a lazily initialised nested decoder only behind a test of coder->sequence."
        + " (SATURATE) sums of memory-usage figures that may be UINT64_MAX are saturated."
-       + ' (USAGE) memconfig callbacks report the figure the limit was checked against; (TERMS) LZMA2 history reserve and the MT-encoder default limit are part of the sums compared with the limit.',
+       + ' (USAGE) memconfig callbacks report the figure the limit was checked against; (TERMS) LZMA2 history reserve and the MT-encoder default limit are part of the sums compared with the limit.'
+       + " (OPTPATH) every store to lzma_lz_options on an encoder's init path has a live counterpart on its memusage path.",
   technique="must-pass-through (edge cut) on finite-domain product graphs, table joins, dominance rules",
   ref="4/C09"),
  "C04": dict(
@@ -173,7 +174,8 @@ CLAIMED = {
        "next/avail/total updates are structurally tied to the positions passed to the coder; per-initialiser action sets equal "
        "the documented ones. Does NOT decide that no memory outside the buffers is touched. Also (OUTIDX) the bounds fact *out_pos < out_size is available at every out[*out_pos] store of the streaming encoders."
        + " Further rules: lzma_index_hash_decode is called only with input available (shared with C04)."
-       + " (RESTORE) after a single-call function restored *in_pos/*out_pos the position is not read again (11 sites).",
+       + " (RESTORE) after a single-call function restored *in_pos/*out_pos the position is not read again (11 sites)."
+       + ' (UNINIT) every access through strm->internal in a public function is preceded by its NULL test or by lzma_strm_init().',
   technique="exhaustive finite-domain abstract interpretation of the wrapper's CFG vs a protocol table; structural def-use rules",
   ref="4/C11"),
  "C16": dict(
